@@ -14,6 +14,25 @@ import paraxcorr
 DISTS = ['hexapolar', 'cross', 'line_x', 'line_y', 'uniform', 'random', 'ring', 'gaussian_quad']
 
 
+def build(spec):
+    """lensgen.build plus a DISPERSIVE object-space medium: spec['object_material'] = ['abbe', n_d, V_d] or
+    ['glass', name, catalogue] (lensgen.build knows ['ideal', n, k] only).  The medium is put where
+    Optic.add_surface(index=0, material=...) puts it: material_post of the object surface, material_pre of surface 1."""
+    om = spec.get('object_material')
+    if not om or om[0] == 'ideal':
+        return lensgen.build(spec)
+    from optiland.materials import AbbeMaterial, Material
+    s2 = dict(spec)
+    s2['object_material'] = ['ideal', 1.0, 0.0]
+    o = lensgen.build(s2)
+    m = AbbeMaterial(om[1], om[2]) if om[0] == 'abbe' else (Material(om[1]) if len(om) == 2 else Material(om[1], om[2]))
+    surfs = o.surface_group.surfaces
+    surfs[0].material_post = m
+    surfs[0].material_pre = m
+    surfs[1].material_pre = m
+    return o
+
+
 def in_scope(spec):
     """the property quantifies over infinite objects with angular fields and finite objects with
     height fields, fields along y"""
@@ -245,6 +264,9 @@ def gen_spec(rng, exotic=True):
             spec['surfaces'][-1]['material'] = ['ideal', rng.uniform(1.2, 1.7), 0.0]
         elif r < 0.14:
             spec['object_material'] = ['ideal', rng.uniform(1.1, 1.5), 0.0]
+            if rng.random() < 0.5:      # a dispersive immersion (the index depends on the wavelength analysed)
+                spec['object_material'] = rng.choice([['abbe', rng.uniform(1.3, 1.5), rng.uniform(20.0, 60.0)],
+                                                      ['glass', rng.choice(lensgen.GLASSES), 'schott']])
         elif r < 0.22 and len(spec['fields']) > 1:
             for f in spec['fields']:
                 f[0] = -f[0]
@@ -300,7 +322,60 @@ def gen_dispersive_spec(rng, curved_image=None):
     spec['fields'] = [[0.0, 0.0, 0.0, 0.0], [0.7 * maxf, 0.0, 0.0, 0.0], [maxf, 0.0, 0.0, 0.0]][rng.choice([0, 1]):]
     if (rng.random() < 0.5) if curved_image is None else curved_image:
         spec['image_radius'] = rng.uniform(15.0, 60.0) * rng.choice([-1, 1])
+    if math.isinf(spec['object_thickness']) and rng.random() < 0.4:
+        # infinite object in a dispersive medium (underwater lens): the launch offset is weighted by n_object(wavelength)
+        spec['object_material'] = rng.choice([['abbe', rng.uniform(1.3, 1.5), rng.uniform(20.0, 60.0)],
+                                              ['glass', rng.choice(lensgen.GLASSES), 'schott']])
+    else:
+        spec.pop('object_material', None)
     return spec
+
+
+def gen_lossy_spec(rng):
+    """a lens whose rays do NOT all arrive with intensity 1: a SimpleCoating with T < 1, a RadialAperture that
+    clips part of the beam (clipped rays keep a finite OPD, intensity 0), an absorbing glass -- one or more of them.
+    Everything else as gen_spec (no vignetting factors, so the pupil is the nominal one)."""
+    spec = gen_spec(rng, exotic=False)
+    for f in spec['fields']:
+        f[2] = f[3] = 0.0
+    kinds = rng.sample(['coating', 'clipping', 'absorbing'], rng.choice([1, 1, 2, 3]))
+    surfs = spec['surfaces']
+    epd = spec['aperture'][1] if spec['aperture'][0] == 'EPD' else 5.0
+    for s_ in surfs:
+        s_.pop('aperture', None)
+        s_.pop('coating', None)
+        if isinstance(s_.get('material'), list) and s_['material'][0] == 'ideal':
+            s_['material'][2] = 0.0
+    if 'coating' in kinds:
+        for s_ in rng.sample(surfs, min(len(surfs), rng.choice([1, 2]))):
+            s_['coating'] = [rng.uniform(0.4, 0.97), rng.uniform(0.0, 0.3)]
+    if 'clipping' in kinds:
+        k = rng.randrange(len(surfs))
+        rmax = epd / 2 * rng.uniform(0.45, 0.85)
+        surfs[k]['aperture'] = [rmax, rng.choice([0.0, 0.0, rmax * rng.uniform(0.1, 0.3)])]
+    if 'absorbing' in kinds:
+        glass = [s_ for s_ in surfs if isinstance(s_.get('material'), list) and s_['material'][0] == 'ideal']
+        if glass:
+            rng.choice(glass)['material'][2] = rng.uniform(2e-7, 3e-6)
+        else:
+            surfs[0]['coating'] = [rng.uniform(0.4, 0.97), 0.0]
+    spec['lossy'] = sorted(kinds)
+    return spec
+
+
+def expected_samples(case):
+    """the oracle's OPD per sample for a case (backward intersection family, the one optiland reports; for a ray
+    that lands outside the reference sphere the other crossing is allowed and taken when the data sit on it)"""
+    eb, ef, info = expected_opd(case['surfs'], case['ps'], case['spec'], case['chief'], case['rays'], case['w'],
+                                impl_xpl=case['xpl'])
+    out = []
+    for i, e in enumerate(eb):
+        a = info['alt'][0][i]
+        d = case['data'][i]
+        if a is not None and math.isfinite(d) and math.isfinite(a) and (not math.isfinite(e) or abs(d - a) < abs(d - e)):
+            e = a
+        out.append(e)
+    return out
 
 
 def newton_slack(case):
